@@ -41,17 +41,17 @@ type Stats struct {
 
 // Proc is one long-lived solver process speaking SMT-LIB2 on stdin/stdout.
 type Proc struct {
-	Name    string
-	argv    []string
-	prelude string
-	cmd     *exec.Cmd
-	in      io.WriteCloser
-	out     *bufio.Reader
-	Stats   Stats
-	Depth   int
-	Log     io.Writer // optional transcript
-	Dead    error
-	TimeoutMS int
+	Name        string
+	argv        []string
+	prelude     string
+	cmd         *exec.Cmd
+	in          io.WriteCloser
+	out         *bufio.Reader
+	Stats       Stats
+	Depth       int
+	Log         io.Writer // optional transcript
+	Dead        error
+	TimeoutMS   int
 	UseGetValue bool
 }
 
